@@ -237,6 +237,18 @@ func runSelection(t *testing.T, tape *kernel.Tape) *kernel.Result {
 	if opCtx {
 		op.Context = context.WithValue(context.Background(), ctxKey("who"), "operation")
 	}
+	if tape.Bool(4, "earlier-call-with-own-client") {
+		// the very first call on this Runtime carries an operation-level client; later calls must still use the Runtime's
+		env.Fault("earlier-call-with-operation-client")
+		first := *op
+		first.Client = &http.Client{Transport: mkTransport("earlier-operation")}
+		first.Reader = runtime.ClientResponseReaderFunc(func(r runtime.ClientResponse, _ runtime.Consumer) (any, error) {
+			_, _ = io.ReadAll(r.Body())
+			return nil, nil
+		})
+		_, _ = rt.Submit(&first)
+		seenCtx = nil
+	}
 	var err error
 	if pm := kernel.Catch(func() { _, err = rt.Submit(op) }); pm != "" {
 		env.Violate("C13/panic", sp.class, "Submit panicked: %s", pm)
@@ -373,7 +385,7 @@ func (e *echoTransport) RoundTrip(req *http.Request) (*http.Response, error) {
 	if e.k != nil {
 		e.k.Point()
 	}
-	body := fmt.Sprintf("token=%s path=%s query=%s sent=%d:%s", req.Header.Get("X-Token"), req.URL.Path, req.URL.RawQuery, len(sent), sent)
+	body := fmt.Sprintf("token=%s scheme=%s path=%s query=%s sent=%d:%s", req.Header.Get("X-Token"), req.URL.Scheme, req.URL.Path, req.URL.RawQuery, len(sent), sent)
 	h := http.Header{}
 	if p.ctype != "" {
 		h.Set("Content-Type", p.ctype)
@@ -383,8 +395,11 @@ func (e *echoTransport) RoundTrip(req *http.Request) (*http.Response, error) {
 		Body: &ctxBody{ctx: req.Context(), r: strings.NewReader(body)}, ContentLength: int64(len(body)), Request: req, Proto: "HTTP/1.1", ProtoMajor: 1, ProtoMinor: 1}, nil
 }
 
+// offeredSchemes is one list shared by every operation of a run (generated clients share such slices): https must win.
+var offeredSchemes = []string{"http", "ws", "https"}
+
 func mkOperation(i int, p callPlan, out *callResult) *runtime.ClientOperation {
-	op := &runtime.ClientOperation{ID: "op" + p.token, Method: "POST", PathPattern: "/items/{id}", Schemes: []string{"http"},
+	op := &runtime.ClientOperation{ID: "op" + p.token, Method: "POST", PathPattern: "/items/{id}", Schemes: offeredSchemes,
 		ProducesMediaTypes: []string{"application/json", "text/plain"},
 		Params: runtime.ClientRequestWriterFunc(func(req runtime.ClientRequest, _ strfmt.Registry) error {
 			_ = req.SetHeaderParam("X-Idx", strconv.Itoa(i))
@@ -435,6 +450,7 @@ func runConcurrent(t *testing.T, tape *kernel.Tape) *kernel.Result {
 		raceLogInit = true
 		raceLog = kernel.OpenRaceLog()
 	}
+	copy(offeredSchemes, []string{"http", "ws", "https"})
 	n := 2 + tape.Choose(7, "ntasks")
 	plans := make([]callPlan, n)
 	for i := range plans {
@@ -449,7 +465,7 @@ func runConcurrent(t *testing.T, tape *kernel.Tape) *kernel.Result {
 	mask := 1 + tape.Choose(63, "registry-mask")
 	catchAll := tape.Bool(2, "catch-all")
 	mkRuntime := func(k *kernel.K2) *client.Runtime {
-		rt := client.New("sim.local", "/api", []string{"http"})
+		rt := client.New("sim.local", "/api", nil)
 		rt.Transport = &echoTransport{k: k, plans: plans}
 		rt.Consumers = mkRegistry(mask, catchAll)
 		return rt
@@ -471,6 +487,7 @@ func runConcurrent(t *testing.T, tape *kernel.Tape) *kernel.Result {
 		est += kernel.CountYields(func() { call(rt, i, &solo[i]) })
 	}
 	raceLog.Drain() // nothing of the solo pass is attributed to the schedule
+	copy(offeredSchemes, []string{"http", "ws", "https"}) // as handed over by the application, whatever the solo pass did to it
 	// concurrent pass on ONE fresh Runtime
 	conc := make([]callResult, n)
 	k := kernel.NewK2(tape)
@@ -505,6 +522,9 @@ func runConcurrent(t *testing.T, tape *kernel.Tape) *kernel.Result {
 			break
 		}
 		// solo sanity against the reference (own token, own consumer)
+		if conc[i].ran && !strings.Contains(conc[i].body, " scheme=https ") {
+			env.Violate("C13/cross-talk", "scheme", "caller %d was sent over %q although https is among the offered schemes %v", i, conc[i].body, offeredSchemes)
+		}
 		if solo[i].ran && (solo[i].served != plans[i].token || !strings.Contains(solo[i].body, "token="+plans[i].token+" ")) {
 			env.Violate("C13/cross-talk", "solo-token", "caller %d alone saw %v for token %s", i, solo[i], plans[i].token)
 		}
